@@ -209,4 +209,11 @@ var targets = []Target{
 		Requires: []string{"Gen_protowire", "Gen_proto", "Gen_protobinary"},
 		Funcs:  []string{"visitorUserNode.encodeMapKey"},
 	},
+	{
+		// C05: the probing loop of the DOM hash table (first empty slot for a key)
+		Module: "Gen_domhash",
+		Dir:    "thrift/generic",
+		Mode:   "abs",
+		Funcs:  []string{"seekIntHash"},
+	},
 }
